@@ -292,6 +292,7 @@ type setInst struct {
 	aux   stackage.Auxiliary // nil = whatever the library allocated
 	auxOK bool               // model knows the identity
 	fifo  bool
+	fold  bool
 }
 
 type setOp struct {
@@ -338,7 +339,7 @@ func c18SetOps() []setOp {
 		n    string
 		v    []any
 		want string
-	}{{`"&"`, []any{"&"}, "&"}, {`'|'`, []any{'|'}, "|"}, {`"&",'&'`, []any{"&", '&'}, "&&"}, {"", nil, ""}, {`""`, []any{""}, ""}} {
+	}{{`"&"`, []any{"&"}, "&"}, {`'|'`, []any{'|'}, "|"}, {`"&",'&'`, []any{"&", '&'}, "&&"}, {"", nil, ""}, {`""`, []any{""}, ""}, {`"vel"`, []any{"vel"}, "vel"}} {
 		y := y
 		add("SetSymbol("+y.n+")", func(in *setInst) {
 			in.s.SetSymbol(y.v...)
@@ -350,7 +351,7 @@ func c18SetOps() []setOp {
 	for _, e := range []struct {
 		n string
 		v []any
-	}{{`"\""`, []any{`"`}}, {`["(",")"]`, []any{[]string{"(", ")"}}}, {`["<",">"],"'"`, []any{[]string{"<", ">"}, "'"}}, {`[")","]"]`, []any{[]string{")", "]"}}}, {`["\""]`, []any{[]string{`"`}}}, {"", nil}} {
+	}{{`"\""`, []any{`"`}}, {`["(",")"]`, []any{[]string{"(", ")"}}}, {`["<",">"],"'"`, []any{[]string{"<", ">"}, "'"}}, {`[")","]"]`, []any{[]string{")", "]"}}}, {`["\""]`, []any{[]string{`"`}}}, {"", nil}, {`"x"`, []any{"x"}}, {`"X"`, []any{"X"}}} {
 		e := e
 		add("SetEncap("+e.n+")", func(in *setInst) {
 			in.s.SetEncap(e.v...)
@@ -381,6 +382,8 @@ func c18SetOps() []setOp {
 	add("SetAuxiliary()", func(in *setInst) { in.s.SetAuxiliary(); in.aux, in.auxOK = nil, false })
 	add("SetAuxiliary(nil)", func(in *setInst) { in.s.SetAuxiliary(nil); in.aux, in.auxOK = nil, false })
 	add("SetAuxiliary(map)", func(in *setInst) { in.s.SetAuxiliary(c18AuxMap); in.aux, in.auxOK = c18AuxMap, true })
+	add("SetFold(true)", func(in *setInst) { in.s.SetFold(true); in.fold = true })
+	add("SetFold(false)", func(in *setInst) { in.s.SetFold(false); in.fold = false })
 	add("SetFIFO(true)", func(in *setInst) { in.s.SetFIFO(true); in.fifo = true })
 	add("SetFIFO(false)", func(in *setInst) { in.s.SetFIFO(false) })
 	return ops
@@ -474,7 +477,11 @@ func c18SetMachine(c *Ctx, kind string, maxDepth int) *Machine[*setInst] {
 				case in.sym != "":
 					want = a + " " + in.sym + " " + b
 				default:
-					want = a + " " + kind + " " + b
+					word := kind
+					if in.fold {
+						word = strings.ToLower(kind) // folding applies to the operator word only, never to a symbol
+					}
+					want = a + " " + word + " " + b
 				}
 				if got := s.String(); got != want {
 					bad("String:"+cls, "String()=%q want %q (delimiter %q symbol %q encapsulation %q)", got, want, in.delim, in.sym, in.enc)
